@@ -232,7 +232,20 @@ theorem wf_fresh (d : DD β) (h : WFS d) : WF (fresh d) := by
     | false => rfl
     | true => have := h.ucLt i hh; have : d.top < i := hi; omega
 
-theorem wf_preload (d : DD β) (h : WF d) (hl : ∀ b, d.loc b = 0) (hm : d.marks = d.uc) :
+/-- a queued preload request `(f, b)` whose next holder is `hh` is safe for every retained user
+    snapshot at or above `f`: the markers cover them and there is no marker in `[f, hh]` -/
+theorem ur_above_holder (d : DD β) (h : WF d) (f hh u : Nat) (hf : f ≤ u) (hu : d.ur u = true)
+    (hlm : lastMark d.marks hh < f) : hh ≤ u := by
+  apply Classical.byContradiction
+  intro hc
+  have hlt : u < hh := by omega
+  rcases h.markCover u hu with m | m
+  · have := lastMark_ge d.marks hh u (h.urPos u hu) (by omega) m
+    omega
+  · have := lastMark_ge d.marks hh (u + 1) (by omega) (by omega) m
+    omega
+
+theorem wf_preload (d : DD β) (h : WF d) (hl : ∀ b, d.loc b = 0) :
     WF d.preload := by
   have hfiles : d.preload.files = d.files := rfl
   refine ⟨h.bs_pos, h.top_pos, h.empty0, h.emptyAbove, ?_, ?_, h.urLe, h.ucLt, h.markCover,
@@ -287,19 +300,130 @@ theorem wf_preload (d : DD β) (h : WF d) (hl : ∀ b, d.loc b = 0) (hm : d.mark
       · intro u hu hfu
         rcases hu with hu | hu
         · -- a retained user snapshot at or above the punched file lies above the next holder
-          have hm' : d.marks u = true := by rw [hm]; exact ur_uc d u hu
-          by_cases c : u < hh
-          · have := lastMark_ge d.marks hh u (h.urPos u hu) (by omega) hm'
-            omega
-          · exact ⟨hh, q3, by omega, q5⟩
+          exact ⟨hh, q3, ur_above_holder d h p.1 hh u hfu hu q6, q5⟩
         · have hu' : u = d.top := hu
           exact ⟨hh, q3, by omega, q5⟩
+
+theorem preloadBlock_congr (d e : DD β) (hf : e.files = d.files) (hm : e.marks = d.marks) (hp : e.punch = d.punch)
+    (b : Nat) : ∀ i, preloadBlock e b i = preloadBlock d b i := by
+  intro i
+  induction i with
+  | zero => rfl
+  | succ i ih => simp only [preloadBlock, ih, hf, hm, hp]
+
+theorem preloadHoles_congr (d e : DD β) (hf : e.files = d.files) (hm : e.marks = d.marks) (hp : e.punch = d.punch)
+    (ht : e.top = d.top) : ∀ n, preloadHoles e n = preloadHoles d n := by
+  intro n
+  induction n with
+  | zero => rfl
+  | succ n ih => simp only [preloadHoles, ih, preloadBlock_congr d e hf hm hp, ht]
+
+/-- `UpdateLUNMap` preserves the invariant (C07: the merged location map is sound, the queued
+    requests are safe). -/
+theorem wf_lunmap (d : DD β) (h : WF d) : WF d.lunmap := by
+  have hloc : ∀ b, d.lunmap.loc b = if d.loc b ≠ 0 then d.loc b else (if b < d.nb then (preloadBlock d b d.top).1 else 0) :=
+    fun b => rfl
+  have topHolder : ∀ b hh, hh ≤ d.top → (d.files hh).alloc b = true → hh ≤ (preloadBlock d b d.top).1 := by
+    intro b hh h1 h2
+    have ⟨_, _, s3, _⟩ := preloadBlock_spec d b d.top
+    apply Classical.byContradiction
+    intro hc
+    have := s3 hh (by omega) h1
+    rw [h2] at this; cases this
+  refine ⟨h.bs_pos, h.top_pos, h.empty0, h.emptyAbove, ?_, ?_, h.urLe, h.ucLt, h.markCover, h.marksAbove, ?_⟩
+  · intro b hb
+    rw [hloc] at hb ⊢
+    by_cases c : d.loc b ≠ 0
+    · rw [if_pos c]; exact h.locOk b c
+    · rw [if_neg c] at hb ⊢
+      by_cases cb : b < d.nb
+      · rw [if_pos cb] at hb ⊢
+        have ⟨s1, s2, s3, _⟩ := preloadBlock_spec d b d.top
+        refine ⟨s1, ?_, Or.inl (s2 hb)⟩
+        intro j hj
+        by_cases cj : j ≤ d.top
+        · exact s3 j hj cj
+        · exact h.emptyAbove j (by omega) b
+      · rw [if_neg cb] at hb; exact absurd rfl hb
+  · intro b hb
+    have hb' : d.nb ≤ b := hb
+    rw [hloc, h.locOut b hb']
+    have : ¬ b < d.nb := by omega
+    simp [this]
+  · intro p hp
+    have hp' : p ∈ d.pend ++ preloadHoles d d.nb ++
+        ((List.range d.nb).filterMap fun b =>
+          if (if b < d.nb then (preloadBlock d b d.top).1 else 0) ≠ 0 ∧
+             (if b < d.nb then (preloadBlock d b d.top).1 else 0) < d.loc b ∧
+             lastMark d.marks d.top < (if b < d.nb then (preloadBlock d b d.top).1 else 0) ∧
+             d.punch then
+            some ((if b < d.nb then (preloadBlock d b d.top).1 else 0), b) else none) := hp
+    rcases List.mem_append.mp hp' with hp1 | hp3
+    · rcases List.mem_append.mp hp1 with hp1 | hp2
+      · -- older requests
+        have ⟨q0, q1, q2⟩ := h.pendOk p hp1
+        refine ⟨q0, ?_, q2⟩
+        rw [hloc]
+        by_cases c : d.loc p.2 ≠ 0
+        · rw [if_pos c]; exact q1
+        · rw [if_neg c]
+          by_cases cb : p.2 < d.nb
+          · rw [if_pos cb]; right
+            have ⟨hh, a1, a2, a3⟩ := q2 d.top (Or.inr rfl) (by omega)
+            have := topHolder p.2 hh a2 a3
+            omega
+          · rw [if_neg cb]; left; rfl
+      · -- requests of the scan
+        have ⟨m1, m2⟩ := mem_preloadHoles d d.nb p hp2
+        have ⟨_, _, _, s4⟩ := preloadBlock_spec d p.2 d.top
+        have ⟨_, q2, hh, q3, q4, q5, q6⟩ := s4 p m2
+        refine ⟨by show p.1 < d.top; omega, ?_, ?_⟩
+        · right
+          rw [hloc]
+          by_cases c : d.loc p.2 ≠ 0
+          · rw [if_pos c]
+            -- nothing above a sound location entry holds the block, and `hh` does
+            have ⟨_, l2, _⟩ := h.locOk p.2 c
+            apply Classical.byContradiction
+            intro hc
+            have := l2 hh (by omega)
+            rw [q5] at this; cases this
+          · rw [if_neg c, if_pos m1]
+            have := topHolder p.2 hh q4 q5
+            omega
+        · intro u hu hfu
+          rcases hu with hu | hu
+          · exact ⟨hh, q3, ur_above_holder d h p.1 hh u hfu hu q6, q5⟩
+          · have hu' : u = d.top := hu
+            exact ⟨hh, q3, by omega, q5⟩
+    · -- requests of the merge: the live entry points above the scanned owner — impossible when no
+      -- write came between the scan and the merge, so there are none
+      exfalso
+      obtain ⟨b, hb, he⟩ := List.mem_filterMap.mp hp3
+      have hbn : b < d.nb := by simpa using hb
+      by_cases hc : (preloadBlock d b d.top).1 ≠ 0 ∧ (preloadBlock d b d.top).1 < d.loc b ∧
+          lastMark d.marks d.top < (preloadBlock d b d.top).1 ∧ d.punch = true
+      · obtain ⟨c1, c2, _, _⟩ := hc
+        have hl0 : d.loc b ≠ 0 := by omega
+        have ⟨_, l2, l3⟩ := h.locOk b hl0
+        have ⟨_, s2, _, _⟩ := preloadBlock_spec d b d.top
+        have hold := s2 c1
+        rcases l3 with l3 | l3
+        · have := topHolder b (d.loc b) (h.locOk b hl0).1 l3
+          omega
+        · have := l3 _ c2
+          rw [hold] at this; cases this
+      · simp only [hbn, if_true] at he
+        rw [if_neg hc] at he
+        cases he
+
+theorem view_lunmap (d : DD β) (i u : Nat) : d.lunmap.view i u = d.view i u := rfl
 
 theorem wf_reopen (d : DD β) (h : WFS d) (pre : Bool) : WF (d.reopen pre) := by
   have e : d.reopen pre = if pre then (fresh d).preload else fresh d := rfl
   rw [e]
   split
-  · exact wf_preload (fresh d) (wf_fresh d h) (fun _ => rfl) rfl
+  · exact wf_preload (fresh d) (wf_fresh d h) (fun _ => rfl)
   · exact wf_fresh d h
 
 /-- **C01/C06: reopening (with or without preload) changes no view.** -/
